@@ -675,7 +675,7 @@ func runSched(c *Ctx) {
 		return
 	}
 	c.Stat("sched:hook-present")
-	for n := 2; n <= c.N(4, 5); n++ {
+	for n := 2; n <= 5; n++ {
 		perms := permutations(n)
 		for _, perm := range perms {
 			data, want := seqStream(r, n, 1, r.Intn(2) == 0)
